@@ -62,7 +62,7 @@ class AGen(VGen):
         if k == "tupleVar":
             return {"a": "tupleVar", "x": self.gen_ann(depth - 1, hashable)}
         if k == "tupleFixed":
-            return {"a": "tupleFixed", "xs": [self.gen_ann(depth - 1, hashable) for _ in range(r.choice([1, 2, 3]))]}
+            return {"a": "tupleFixed", "xs": [self.gen_ann(depth - 1, hashable) for _ in range(r.choice([0, 1, 1, 2, 2, 3]))]}  # 0: Tuple[()]
         if k == "literal":
             return self.gen_literal()
         if k == "annotated":
@@ -505,6 +505,30 @@ def _other_resolver(annotation: Any) -> Any:
     return get_typehint_validator_base(_other_resolver, annotation)
 
 
+def mirror_ann(a: Any) -> Any:
+    """a copy of the annotation description with every union's members and every literal's values reversed; None when
+    nothing changes"""
+    changed = [False]
+
+    def go(d: Any) -> Any:
+        if isinstance(d, dict):
+            out = {k: go(v) for k, v in d.items() if not k.startswith("_")}
+            if d.get("a") in ("union", "optional") and isinstance(out.get("xs"), list) and len(out["xs"]) > 1:
+                out["xs"] = out["xs"][::-1]
+                changed[0] = True
+            if d.get("a") == "literal" and len(out.get("vs", [])) > 1:
+                out["vs"] = out["vs"][::-1]
+                changed[0] = True
+            return out
+        if isinstance(d, list):
+            return [go(x) for x in d]
+        return d
+    if any(w in json.dumps(a) for w in ('"dataclass"', '"namedtuple"', '"typeddict"')):
+        return None     # a generated class is built once per case: its field annotations cannot be had both ways
+    m = go(a)
+    return m if changed[0] else None
+
+
 def run_case(case: dict, rng: random.Random) -> Tuple[Optional[str], List[dict], List[str], List[dict]]:
     """returns (unbuildable, model requests, failures, real observations)"""
     from koda_validate.typehints import get_typehint_validator
@@ -516,8 +540,19 @@ def run_case(case: dict, rng: random.Random) -> Tuple[Optional[str], List[dict],
         # earlier-built Tuple[Union[bool, date]], i.e. not the annotation the description says
         for _f in getattr(typing, "_cleanups", []):
             _f()
-        ann = build_ann(ctx, case["ann"], rng)
         resolver = get_typehint_validator if case["resolver"] == "default" else resolve_signature_typehint_default
+        # history: the annotation with the members of every Union / Literal in reverse order - equal to, and hashing
+        # like, the real one as far as `typing` is concerned - is derived first.  What is derived for the real one
+        # afterwards must not depend on that.
+        mirrored = mirror_ann(case["ann"])
+        if mirrored is not None:
+            try:
+                resolver(build_ann(ctx, mirrored, random.Random(0)))
+            except Exception:  # noqa
+                pass
+            for _f in getattr(typing, "_cleanups", []):
+                _f()
+        ann = build_ann(ctx, case["ann"], rng)
         # history: the same annotation is first derived through a user-written resolver (public API:
         # `typehint_resolver=` / `get_typehint_validator_base`) that answers differently for leaf types.  What the
         # library's own resolvers derive afterwards must not depend on that.
@@ -615,6 +650,15 @@ def shard(seed: int, shard_i: int, n: int, opts: dict) -> dict:
                             same = (w == x) if not contains_nan(xd) else True
                             if not same:
                                 what = f"{mode}: the input already is a value of the type, but the payload differs from it"
+                        elif x_has and not has_annotated(c["ann"]) and c["ann"]["a"] == "union" and not contains_nan(xd):
+                            # a union some member of which converts: the members are tried in the order written, so if
+                            # the first member the input is a value of comes before every converting member (and does
+                            # not convert itself), nothing is converted and the payload is the input
+                            ms = c["ann"]["xs"]
+                            j = next((i for i, mm in enumerate(ms) if has_type(ctx, mm, x)), None)
+                            if j is not None and not any(_converts(mm) for mm in ms[:j + 1]) and not (w == x and type(w) is type(x)):
+                                what = (f"{mode}: the input is a value of member {j} of the union, no member up to there "
+                                        f"converts, but the payload differs from the input")
                     except BaseException:  # noqa
                         pass
                 elif "invalid" in out and x_has and c["ann"]["a"] != "annotated" and not has_annotated(c["ann"]):
@@ -639,15 +683,17 @@ def shard(seed: int, shard_i: int, n: int, opts: dict) -> dict:
             "distinct": list(distinct), "nontrivial": list(nontrivial), "samples": samples}
 
 
+def _converts(b: Any) -> bool:
+    j = json.dumps(b)
+    return any(f'"a": "{k}"' in j for k in ("decimal", "uuid", "date", "datetime", "tupleVar", "tupleFixed", "tupleBare",
+                                             "dataclass", "namedtuple", "typeddict"))
+
+
 def union_may_convert(a: Any) -> bool:
     """inside a union an earlier variant may accept by converting (text -> Decimal, list -> tuple, dict ->
     record) a value that already is of a later variant's type: the payload then legitimately differs"""
-    def conv(b: Any) -> bool:
-        j = json.dumps(b)
-        return any(f'"a": "{k}"' in j for k in ("decimal", "uuid", "date", "datetime", "tupleVar", "tupleFixed", "tupleBare",
-                                                 "dataclass", "namedtuple", "typeddict"))
     if isinstance(a, dict):
-        if a.get("a") == "union" and any(conv(x) for x in a["xs"]):
+        if a.get("a") == "union" and any(_converts(x) for x in a["xs"]):
             return True
         return any(union_may_convert(v) for v in a.values())
     if isinstance(a, list):
